@@ -355,6 +355,7 @@ func (s *SUT) FaultOp(rng *rand.Rand) (Op, []Problem) {
 	if c.kind == "mine" {
 		return s.faultMine(c.blk)
 	}
+	s.LedgerTipBefore = s.LedgerTip()
 	run := func(n *sn.Node) error {
 		switch c.kind {
 		case "confirm":
